@@ -94,6 +94,26 @@ func mkSL[K any](cmp skiplist.Comparator[K], dec func([]byte) K, enc func(K) []b
 	}
 }
 
+// comparators that honour only the sign contract (<0, 0, >0), not -1/0/1
+type magIntCmp struct{}
+
+func (magIntCmp) Compare(a, b int64) int {
+	if a > b {
+		return 7
+	} else if a < b {
+		return -3
+	}
+	return 0
+}
+
+type magBytesCmp struct{}
+
+func (magBytesCmp) Compare(a, b []byte) int { return 5 * bytes.Compare(a, b) }
+
+type magStringCmp struct{}
+
+func (magStringCmp) Compare(a, b string) int { return 9 * strings.Compare(a, b) }
+
 func (c *c16SL) Exec() {
 	defer func() {
 		if r := recover(); r != nil {
@@ -104,8 +124,14 @@ func (c *c16SL) Exec() {
 	switch c.Cmp {
 	case "int":
 		ops = mkSL[int64](skiplist.OrderedComparator[int64]{}, decInt, encInt)
+	case "magint":
+		ops = mkSL[int64](magIntCmp{}, decInt, encInt)
 	case "string":
 		ops = mkSL[string](skiplist.OrderedComparator[string]{}, func(b []byte) string { return string(b) }, func(s string) []byte { return []byte(s) })
+	case "magstring":
+		ops = mkSL[string](magStringCmp{}, func(b []byte) string { return string(b) }, func(s string) []byte { return []byte(s) })
+	case "magbytes":
+		ops = mkSL[[]byte](magBytesCmp{}, func(b []byte) []byte { return b }, func(b []byte) []byte { return b })
 	default:
 		ops = mkSL[[]byte](skiplist.BytesComparator{}, func(b []byte) []byte { return b }, func(b []byte) []byte { return b })
 	}
@@ -272,6 +298,7 @@ type pqOut struct {
 }
 
 type c16PQ struct {
+	Mag    bool       `json:"mag"` // comparator returning magnitudes instead of -1/0/1
 	Inputs [][]pqItem `json:"inputs"`
 	// observation
 	Out     []pqOut `json:"out"`
@@ -312,7 +339,11 @@ func (c *c16PQ) Exec() {
 	for i, in := range c.Inputs {
 		its = append(its, &sliceIter{items: in, ctx: i})
 	}
-	q, err := pq.NewPriorityQueue[[]byte, []byte, int](skiplist.BytesComparator{}, its)
+	var cmp skiplist.Comparator[[]byte] = skiplist.BytesComparator{}
+	if c.Mag {
+		cmp = magBytesCmp{}
+	}
+	q, err := pq.NewPriorityQueue[[]byte, []byte, int](cmp, its)
 	if err != nil {
 		c.InitErr = true
 		return
@@ -458,7 +489,7 @@ func permutations(n int) [][]int {
 
 func randKey(r *rand.Rand, cmp string) []byte {
 	switch cmp {
-	case "int":
+	case "int", "magint":
 		vals := []int64{-5, -1, 0, 1, 2, 3, 7, 100, -1 << 62, 1 << 62}
 		if r.Intn(3) == 0 {
 			return encInt(vals[r.Intn(len(vals))])
@@ -474,7 +505,7 @@ func randKey(r *rand.Rand, cmp string) []byte {
 		for i := range b {
 			b[i] = alphabet[r.Intn(len(alphabet))]
 		}
-		if cmp == "string" && len(b) == 0 {
+		if (cmp == "string" || cmp == "magstring") && len(b) == 0 {
 			return []byte{}
 		}
 		return b
@@ -512,7 +543,8 @@ func slCaseFrom(r *rand.Rand, cmp string, keys [][]byte) *c16SL {
 	for i := 0; i < 4; i++ {
 		add(randKey(r, cmp))
 	}
-	if cmp != "int" {
+	isInt := cmp == "int" || cmp == "magint"
+	if !isInt {
 		add([]byte{})
 		add([]byte{0xff, 0xff, 0xff, 0xff, 0xff})
 		for _, k := range keys {
@@ -527,6 +559,13 @@ func slCaseFrom(r *rand.Rand, cmp string, keys [][]byte) *c16SL {
 	if len(c.Probes) > 14 {
 		r.Shuffle(len(c.Probes), func(i, j int) { c.Probes[i], c.Probes[j] = c.Probes[j], c.Probes[i] })
 		c.Probes = c.Probes[:14]
+	}
+	// inverted and degenerate ranges around the extremes
+	if isInt {
+		c.Bounds = append(c.Bounds, [2][]byte{encInt(1<<63 - 1), encInt(-1 << 63)}, [2][]byte{encInt(1<<63 - 1), encInt(1<<63 - 1)})
+	} else {
+		top := []byte{0xff, 0xff, 0xff, 0xff, 0xff, 0xff}
+		c.Bounds = append(c.Bounds, [2][]byte{top, {}}, [2][]byte{top, top}, [2][]byte{{}, {}})
 	}
 	for i := 0; i < 6 && len(c.Probes) > 0; i++ {
 		a := c.Probes[r.Intn(len(c.Probes))]
@@ -546,7 +585,7 @@ func distinctKeys(r *rand.Rand, cmp string, n int) [][]byte {
 		k := randKey(r, cmp)
 		if len(out) > 20 {
 			// widen the universe for larger maps
-			if cmp == "int" {
+			if cmp == "int" || cmp == "magint" {
 				k = encInt(r.Int63n(1000000) - 500000)
 			} else {
 				k = append(k, byte(r.Intn(256)), byte(r.Intn(256)))
@@ -562,7 +601,7 @@ func distinctKeys(r *rand.Rand, cmp string, n int) [][]byte {
 
 func genC16(r *rand.Rand, tier string) []Case {
 	var cases []Case
-	cmps := []string{"int", "string", "bytes"}
+	cmps := []string{"int", "string", "bytes", "magint", "magbytes", "magstring"}
 	maxPerm := 6
 	nRandSL, nPQ := 200, 300
 	maxKeys, maxLists := 60, 8
@@ -574,7 +613,7 @@ func genC16(r *rand.Rand, tier string) []Case {
 	// all permutations of up to maxPerm distinct keys
 	for n := 0; n <= maxPerm; n++ {
 		for pi, perm := range permutations(n) {
-			cmp := cmps[(pi+n)%3]
+			cmp := cmps[(pi+n)%len(cmps)]
 			base := distinctKeys(r, cmp, n)
 			sort.Slice(base, func(i, j int) bool { return bytes.Compare(base[i], base[j]) < 0 })
 			if len(base) < n {
@@ -588,7 +627,7 @@ func genC16(r *rand.Rand, tier string) []Case {
 		}
 	}
 	for i := 0; i < nRandSL; i++ {
-		cmp := cmps[i%3]
+		cmp := cmps[i%len(cmps)]
 		n := r.Intn(maxKeys)
 		if tier == "thorough" && i%50 != 0 {
 			n = r.Intn(200)
@@ -601,7 +640,7 @@ func genC16(r *rand.Rand, tier string) []Case {
 		if i < 4 {
 			k = i
 		}
-		c := &c16PQ{}
+		c := &c16PQ{Mag: i%2 == 1}
 		for j := 0; j < k; j++ {
 			n := r.Intn(7)
 			if r.Intn(4) == 0 {
